@@ -39,6 +39,7 @@ def run(model, col, tier):
     G = Grammar(model)
     D = Dispatch(model)
     check_allocator(model, col)
+    check_block_list(model, col, "R14.3")
     run_rest(model, col, tier, G, D)
 
 
@@ -87,6 +88,56 @@ def check_allocator(model, col):
     t = _alpha(wv)
     col.check("v0.SetReference(self.Reference)" in t and "v0.SetParent(self.Parent)" in t and "v0.SetStore(self.Store)" in t and "self.__scope" in t and t.endswith("return v0"), "R14.1", f"{IR}::VariableAccessInstruction.WithVariable",
               "the copy keeps reference, parent, store operand and scope", "the copy does not keep reference/parent/store/scope of the original", IR, wv)
+
+
+def check_block_list(model, col, rule):
+    """The blocks of a function are the ones lowering created, in creation order: `Function.__basicBlocks` is a fresh list
+    in __init__, grows by `append` (CreateBasicBlock) and is otherwise only handed through the generic traversal.  The
+    emission templates (R01.3 / R14.3) give every branch a block of this list as its target and rely on fall-through to the
+    next block; a block taken out or moved afterwards leaves branches pointing at something the function no longer has."""
+    fn = model.cls(IR, "Function")
+    fld = None
+    init = fn.own_method("__init__")
+    for n in ast.walk(init) if init is not None else []:
+        if isinstance(n, ast.Assign) and isinstance(n.targets[0], ast.Attribute) and isinstance(n.value, ast.List) and not n.value.elts and "lock" in n.targets[0].attr:
+            fld = n.targets[0].attr
+    if fld is None:
+        raise AnchorMissing(f"{IR}::Function.__init__ creates the block list")
+    nw = 0
+    for m in fn.methods.values():
+        for n in ast.walk(m):
+            bad = None
+            if isinstance(n, (ast.Assign, ast.AugAssign, ast.Delete)):
+                tg = n.targets if isinstance(n, (ast.Assign, ast.Delete)) else [n.target]
+                for t in tg:
+                    base = t.value if isinstance(t, ast.Subscript) else t
+                    if isinstance(base, ast.Attribute) and base.attr == fld:
+                        nw += 1
+                        if m.name == "__init__" and isinstance(n, ast.Assign) and isinstance(n.value, ast.List) and not n.value.elts:
+                            continue
+                        if m.name == "_Traverse":
+                            continue  # the generic traversal (infra contract: stores back what the callback returns)
+                        bad = n
+            elif isinstance(n, ast.Call) and isinstance(n.func, ast.Attribute) and isinstance(n.func.value, ast.Attribute) and n.func.value.attr == fld \
+                    and n.func.attr in ("append", "remove", "pop", "insert", "clear", "extend", "sort", "reverse"):
+                nw += 1
+                if n.func.attr != "append":
+                    bad = n
+            if bad is not None:
+                col.bad(rule, f"{IR}::Function.{m.name} changes the block list", f"`{' '.join(unparse(bad).split())[:80]}` removes, replaces or reorders blocks of a function: branches (and fall-through) "
+                        "were laid out against the blocks as created; a branch whose target is dropped names a block the function does not have (KeyError in the VM, or the wrong code runs)", IR, bad)
+    col.floor(rule, "writes to Function's block list", nw, 2)
+    col.ok(rule, f"{IR}::Function block list only grows", f"`{fld}`: created empty, appended to by CreateBasicBlock, handed through _Traverse; {nw} writes")
+    # nobody outside the class takes blocks out either (BasicBlocks returns the list itself)
+    for rel, fi in sorted(model.files.items()):
+        if not rel.startswith("nsl/"):
+            continue
+        for n in ast.walk(fi.tree):
+            if isinstance(n, ast.Call) and isinstance(n.func, ast.Attribute) and n.func.attr in ("remove", "pop", "insert", "clear", "sort", "reverse") and isinstance(n.func.value, ast.Attribute) \
+                    and n.func.value.attr == "BasicBlocks":
+                col.bad(rule, f"{rel}:: changes a function's block list", f"`{' '.join(unparse(n).split())[:80]}` changes the list Function.BasicBlocks hands out", rel, n)
+            elif isinstance(n, ast.Delete) and any(isinstance(t, ast.Subscript) and isinstance(t.value, ast.Attribute) and t.value.attr == "BasicBlocks" for t in n.targets):
+                col.bad(rule, f"{rel}:: changes a function's block list", f"`{' '.join(unparse(n).split())[:80]}` deletes from the list Function.BasicBlocks hands out", rel, n)
 
 
 def run_rest(model, col, tier, G, D):
@@ -210,7 +261,7 @@ def run_rest(model, col, tier, G, D):
     sub = Collector("C02")
     c02.run(model, sub, "quick")
     for ob in sub.obligations:
-        if ob.rule in ("R02.2", "R02.3", "R02.7", "R02.8", "R02.9") or (ob.rule == "R02.4" and "builds no instructions" in ob.construct):
+        if ob.rule in ("R02.2", "R02.3", "R02.7", "R02.8", "R02.9") or (ob.rule == "R02.4" and "builds no instructions" in ob.construct) or (ob.rule == "R02.11" and "only grows" in ob.construct):
             # R02.7: a forwarded load is replaced by the operand of the store *directly before it in its block* (anything else can be
             # defined later / on another path: use before definition); R02.9: a pass object that remembers values of an earlier
             # function hands out operands that are not values of this function
